@@ -1,6 +1,6 @@
 (* C14 — Encoding then decoding returns an equal value and consumes exactly its bytes (native codec).
    Statement file. `rs` is the app registry (which app definitions resolve to which StateApp). *)
-From V Require Import Model.Msgs Proofs.WireP Proofs.ChannelP Proofs.CodecP Proofs.StreamP.
+From V Require Import Model.Msgs Proofs.WireP Proofs.ChannelP Proofs.CodecP Proofs.StreamP Proofs.NormalP.
 
 (* every well-formed envelope (all 17 message types): decoding its encoding followed by ANY further
    bytes yields exactly the envelope and leaves exactly those further bytes unread *)
@@ -71,6 +71,41 @@ Theorem C14_stable_state : forall rs s, state_wf_rs rs s = true ->
   | _ => False end.
 Proof. intros rs. exact (stable_from_rt (dec_state rs) enc_state _ (dec_state_rt rs)). Qed.
 Print Assumptions C14_stable_state.
+
+(* normalisation, for EVERY input byte string (not only encoder output): whatever a decoder accepts is a
+   well-formed value, so its canonical re-encoding (followed by the same unread bytes) decodes to the
+   same value again - a state, transaction, parameter set or message that was received can be stored,
+   forwarded and signed through its re-encoding without changing.  (Messages: all types except the
+   four that carry a participant address map outside channel parameters - 4, 5, 8, 9 -, for which the
+   model's round trip is restricted to single-backend maps.) *)
+Theorem C14_accepted_state_normal : forall rs bs s r, run_flat (dec_state rs) bs = Ok (s, r) ->
+  state_wf_rs rs s = true /\ run_flat (dec_state rs) (enc_state s ++ r) = Ok (s, r).
+Proof. exact dec_state_normal. Qed.
+Print Assumptions C14_accepted_state_normal.
+Theorem C14_accepted_alloc_normal : forall bs a r, run_flat dec_alloc bs = Ok (a, r) ->
+  alloc_wf a = true /\ run_flat dec_alloc (enc_alloc a ++ r) = Ok (a, r).
+Proof. exact dec_alloc_normal. Qed.
+Print Assumptions C14_accepted_alloc_normal.
+Theorem C14_accepted_tx_normal : forall rs bs t r, run_flat (dec_tx rs) bs = Ok (t, r) ->
+  tx_wf rs t = true /\ run_flat (dec_tx rs) (enc_tx t ++ r) = Ok (t, r).
+Proof. exact dec_tx_normal. Qed.
+Print Assumptions C14_accepted_tx_normal.
+Theorem C14_accepted_params_normal : forall rs bs p r, run_flat (dec_params rs) bs = Ok (p, r) ->
+  params_wf rs p = true /\ run_flat (dec_params rs) (enc_params p ++ r) = Ok (p, r).
+Proof. exact dec_params_normal. Qed.
+Print Assumptions C14_accepted_params_normal.
+Theorem C14_accepted_msg_normal : forall rs t bs m r,
+  t <> 4%N /\ t <> 5%N /\ t <> 8%N /\ t <> 9%N -> run_flat (dec_msg_body rs t) bs = Ok (m, r) ->
+  msg_wf rs m = true /\ run_flat (dec_msg_body rs t) (enc_msg_body m ++ r) = Ok (m, r).
+Proof. exact dec_msg_body_normal. Qed.
+Print Assumptions C14_accepted_msg_normal.
+(* scope of the stability clause: the decoders also accept non-canonical bytes (a big integer with a
+   leading zero byte, any non-zero byte as `true`), which the re-encoding does not reproduce; stability
+   is about bytes the encoder wrote (above), and what is signed is always the re-encoding *)
+Theorem C14_noncanonical_bytes_accepted : exists bs b,
+  run_flat dec_balances bs = Ok (b, []) /\ enc_balances b <> bs.
+Proof. exists noncanonical_balances. exact noncanonical_accepted. Qed.
+Print Assumptions C14_noncanonical_bytes_accepted.
 
 (* encodings identify values: what is signed or hashed over an encoding is bound to one value *)
 Theorem C14_envelope_encoding_injective : forall rs a b,
